@@ -37,9 +37,59 @@ Definition merge_styles (static bound : bytes) : bytes :=
   join_decls (fold_left (fun ds kv => set_decl ds (fst kv) (snd kv)) (parse_decls bound) (parse_decls static)).
 
 (* ---- object syntax ---- *)
-(* expr-lang evaluates an unknown name or a missing key to nil without an error *)
+(* parseObjectPairs hands the value text to expr-lang first. A dotted path of plain names (with bracketed numeric
+   indexes) is an expression: an unknown name or a missing key is nil there, without an error. A text that is not an
+   expression - a numeric or hyphenated segment (list.0, m.is-open), a keyword of the language - is an error there,
+   and the code falls back to the path resolver: the pair counts only when the path resolves. *)
+Definition xp_alpha (c : byte) : bool := (N.leb 97 (bN c) && N.leb (bN c) 122) || (N.leb 65 (bN c) && N.leb (bN c) 90) || beq c x5f.
+Definition xp_digit (c : byte) : bool := N.leb 48 (bN c) && N.leb (bN c) 57.
+Fixpoint xp_index (s : bytes) (some : bool) : bool :=       (* digits] then nothing *)
+  match s with
+  | [] => false
+  | c :: r => if beq c x5d then some && match r with [] => true | _ => false end
+              else xp_digit c && xp_index r true
+  end.
+Fixpoint xp_name (s : bytes) (first : bool) : bool :=        (* name or name[digits] *)
+  match s with
+  | [] => negb first
+  | c :: r => if beq c x5b then negb first && xp_index r false
+              else (xp_alpha c || (negb first && xp_digit c)) && xp_name r false
+  end.
+(* words the expression language reserves; as the first name of a path they are not a variable (after a dot a word
+   is a member name; the literals true / false / nil are not generated as paths) *)
+Definition xp_keywords : list bytes := map bs ["not"; "in"; "let"; "and"; "or"; "if"; "else"; "matches"; "contains"]%string.
+Fixpoint xp_split (s cur : bytes) : list bytes :=
+  match s with
+  | [] => [rev cur]
+  | c :: r => if beq c x2e then rev cur :: xp_split r [] else xp_split r (c :: cur)
+  end.
+Definition expr_plain (p : bytes) : bool :=
+  let segs := xp_split p [] in
+  forallb (fun seg => xp_name seg true) segs &&
+  match segs with first :: _ => negb (existsb (bytes_eqb first) xp_keywords) | [] => false end.
+(* the text before the last dot: the value the last name is looked up in *)
+Fixpoint xp_parent_go (s cur : bytes) (last : option bytes) : option bytes :=
+  match s with
+  | [] => last
+  | c :: r => if beq c x2e then xp_parent_go r (c :: cur) (Some (rev cur)) else xp_parent_go r (c :: cur) last
+  end.
+Definition xp_parent (p : bytes) : option bytes := xp_parent_go p [] None.
+(* ... where the expression's value for a path that does not resolve is nil only when the miss is the last step: an
+   unknown root name, or a missing key of a map; a step through nil (or through something that is not a map) is an
+   error of the expression, and the fallback resolver does not find the path either *)
+Definition expr_path (s : stack) (p : bytes) : option val :=
+  match resolve s p with
+  | Some v => Some v
+  | None => match xp_parent p with
+            | None => Some VNil
+            | Some q => match resolve s q with Some (VMap _) => Some VNil | _ => None end
+            end
+  end.
 Definition eval_vexpr (s : stack) (e : vexpr) : option val :=
-  match e with ELit v => Some v | EPath p => Some (match resolve s p with Some v => v | None => VNil end) end.
+  match e with
+  | ELit v => Some v
+  | EPath p => if expr_plain p then expr_path s p else resolve s p
+  end.
 Definition is_upper (c : byte) : bool := N.leb 65 (bN c) && N.leb (bN c) 90.
 Definition to_lower (c : byte) : byte := match Byte.of_N (bN c + 32) with Some b => b | None => c end.
 Fixpoint camel_to_kebab (first : bool) (s : bytes) : bytes :=   (* eval_attributes.go:camelToKebab *)
